@@ -663,8 +663,8 @@ func runC16(c *Ctx) {
 		lifeBinary(c, sc)
 	}
 	cleanupBinary()
-	for i := 0; i < 3; i++ {
-		lifeMetrics(c, false)
+	for i := 0; i < 8; i++ {
+		lifeMetrics(c, i%4 != 0)
 		lifeMetrics(c, true)
 	}
 	lifeStoreStop(c)
@@ -722,13 +722,37 @@ func lifeMetrics(c *Ctx, immediate bool) {
 			}
 		}
 		stopped, errs := waitStop(srv.Stop(), 3*time.Second)
+		// the moment Stop has completed the address must be free: a reload starts the next server on it at once
+		freeAtStop := false
+		if l, err := net.Listen("tcp", addr); err == nil {
+			l.Close()
+			freeAtStop = true
+		}
+		second := "-"
+		if freeAtStop {
+			// … which is what happens now: a second server on the same address serves and stops
+			srv2 := metrics.NewServer(addr)
+			second = "0"
+			cl := &http.Client{Timeout: time.Second, Transport: &http.Transport{DisableKeepAlives: true}}
+			for i := 0; i < 100; i++ {
+				if resp, err := cl.Get("http://" + addr + "/metrics"); err == nil {
+					resp.Body.Close()
+					second = "1"
+					break
+				}
+				time.Sleep(20 * time.Millisecond)
+			}
+			if ok, _ := waitStop(srv2.Stop(), 3*time.Second); !ok {
+				second = "stop-pending"
+			}
+		}
 		time.Sleep(150 * time.Millisecond)
 		listening := false
 		if conn, err := net.DialTimeout("tcp", addr, 200*time.Millisecond); err == nil {
 			conn.Close()
 			listening = true
 		}
-		return fmt.Sprintf("served=%s stopped=%s errs=%d listening=%s", served, b01(stopped), len(errs), b01(listening))
+		return fmt.Sprintf("served=%s stopped=%s errs=%d free_at_stop=%s second_cycle=%s listening=%s", served, b01(stopped), len(errs), b01(freeAtStop), second, b01(listening))
 	}()
 	c.Emit(op, obs)
 }
